@@ -223,43 +223,50 @@ def run_family(ctx, prefix, behs, *, label, timeout_ms, unit_ms=200, slack=REAL_
         done_kinds = ctx._tc_done_kinds = set()     # one violation per signature per check run
     unconfirmed = []
     v0 = ctx.violations + len(ctx.known_matched)
+    # failing records grouped by signature; for each signature up to 4 different records are tried until one is confirmed
+    groups = collections.OrderedDict()
     for i in sorted(bad):
         preds, snapi = bad[i]
-        case = cases[i]
         mine = sorted(p for p in preds if p.startswith(prefix))
         for p in preds:
             if not p.startswith(prefix):
                 other[p] += 1
-        if not mine:
-            continue
-        sig = signature(mine[0], case)
-        k = json.dumps(sig, sort_keys=True)
+        for p in mine[:1]:
+            groups.setdefault(json.dumps(signature(p, cases[i]), sort_keys=True), []).append((i, p, snapi))
+    for k, members in groups.items():
         if k in done_kinds:
             continue
         done_kinds.add(k)
-        beh = behs[case["beh"]]
-        if confirm:
-            # the batch ran several behaviours at once: re-run this behaviour alone (up to 3 times; a schedule-dependent
-            # failure may need more than one)
-            again = []
-            for attempt in range(3):
+        confirmed = None
+        for (i, pred, snapi) in members[:4]:
+            case = cases[i]
+            beh = behs[case["beh"]]
+            if not confirm:
+                confirmed = (case, beh, pred, snapi)
+                break
+            # the batch ran several behaviours at once: re-run this behaviour alone (a schedule-dependent failure may need
+            # more than one attempt)
+            for attempt in range(2):
                 c2, _, _, cmd2 = replay(ctx, [beh], label=label + "-confirm", timeout_ms=timeout_ms, unit_ms=unit_ms, par=1,
                                         base_idx=case["beh"], extra=extra)
                 bad2 = judge(ctx, c2, slack, label=label + "-confirm")
-                again = [j for j in bad2 if mine[0] in bad2[j][0]]
+                again = [j for j in bad2 if pred in bad2[j][0]]
                 if again:
+                    confirmed = (c2[again[0]], beh, pred, bad2[again[0]][1])
                     break
-            if not again:
-                unconfirmed.append("%s failed on %s in the batch run but not in 3 re-runs of the behaviour alone: %s" % (
-                    mine[0], input_class(case), json.dumps(brief(case))))
-                continue
-            case = c2[again[0]]
-            snapi = bad2[again[0]][1]
+            if confirmed:
+                break
+        if not confirmed:
+            i, pred, snapi = members[0]
+            unconfirmed.append("%s failed on %d record(s) in the batch run (e.g. %s) but not when %d of those behaviours were re-run alone: %s" % (
+                pred, len(members), input_class(cases[i]), min(4, len(members)), json.dumps(brief(cases[i]))))
+            continue
+        case, beh, pred, snapi = confirmed
         where = "at the end of the run" if snapi == 0 else "before environment step %s of the script" % case["snaps"][snapi - 1]["a"]
-        ctx.violation(sig, "%s: %s [%s; %s] script: %s; observed: %s" % (
-            mine[0], DESCR.get(mine[0], ""), input_class(case), where, env_script(beh), json.dumps(brief(case))),
+        ctx.violation(json.loads(k), "%s: %s [%s; %s] script: %s; observed: %s" % (
+            pred, DESCR.get(pred, ""), input_class(case), where, env_script(beh), json.dumps(brief(case))),
             {"module": "TcpConn", "behaviour": beh, "base_idx": case["beh"], "driver_args": cmd[2:], "timeout_ms": timeout_ms,
-             "unit_ms": unit_ms, "slack": slack, "predicate": mine[0], "case": case})
+             "unit_ms": unit_ms, "slack": slack, "predicate": pred, "case": case})
     if unconfirmed:
         ctx.notes.append("%s: not reproduced alone: %s" % (label, unconfirmed))
         if not hasattr(ctx, "_tc_unconfirmed"):
